@@ -307,6 +307,44 @@ def main(tier):
         run.tree(random_tree(rng, n, lv), rng.sample(all_combos, 3))
     samples += run.flush("evalE/random-trees-6-to-%d-nodes" % (9 if thorough else 7))
 
+    # ---- quantifiers and connectives over the library's REAL atoms on collections of every shape (ranges with steps, iterators,
+    # deques, dict views, strings, sets, generators): all_p / any_p are Python's all() / any() over the elements -- no model here, the
+    # oracle is the plain-Python reading of the property
+    import collections as _c
+
+    import predicate as _P7
+
+    elem = [("ge_p(3)", _P7.ge_p(3)), ("gt_p(0)", _P7.gt_p(0)), ("le_p(8)", _P7.le_p(8)), ("lt_p(5)", _P7.lt_p(5)), ("eq_p(0)", _P7.eq_p(0)), ("ne_p(4)", _P7.ne_p(4)), ("pos_p", _P7.pos_p),
+            ("neg_p", _P7.neg_p), ("zero_p", _P7.zero_p), ("is_none_p", _P7.is_none_p), ("is_int_p", _P7.is_int_p), ("is_falsy_p", _P7.is_falsy_p), ("in_p(0, 4)", _P7.in_p(0, 4)),
+            ("ge_le_p(2, 6)", _P7.ge_le_p(2, 6)), ("is_str_p", _P7.is_str_p), ("ge_p(3) & le_p(8)", _P7.ge_p(3) & _P7.le_p(8)), ("lt_p(0) | gt_p(6)", _P7.lt_p(0) | _P7.gt_p(6))]
+    colls = [("range(0, 10, 4)", lambda: range(0, 10, 4)), ("range(10, 0, -1)", lambda: range(10, 0, -1)), ("range(10, 0, -3)", lambda: range(10, 0, -3)), ("range(1, 10)", lambda: range(1, 10)),
+             ("range(0)", lambda: range(0)), ("range(5, 5, 2)", lambda: range(5, 5, 2)), ("range(-6, 7, 6)", lambda: range(-6, 7, 6)), ("range(3, 4)", lambda: range(3, 4)),
+             ("[3, 0, 5]", lambda: [3, 0, 5]), ("[1, None]", lambda: [1, None]), ("['', 7]", lambda: ["", 7]), ("[0, 0.0, False]", lambda: [0, 0.0, False]), ("[]", lambda: []), ("()", lambda: ()),
+             ("iter([4, 0])", lambda: iter([4, 0])), ("(x for x in (9, 3))", lambda: (x for x in (9, 3))), ("deque([5, 6])", lambda: _c.deque([5, 6])), ("{0, 4}", lambda: {0, 4}), ("frozenset({7})", lambda: frozenset({7})),
+             ("{3: 'a', 9: 'b'}.keys()", lambda: {3: "a", 9: "b"}.keys()), ("{'k': 0}.values()", lambda: {"k": 0}.values()), ("'ab'", lambda: "ab"), ("map(abs, [-4, 4])", lambda: map(abs, [-4, 4])),
+             ("[None]", lambda: [None]), ("[[], 0]", lambda: [[], 0])]
+
+    def _py(q, fn, coll):
+        try:
+            return ("ok", fn(bool(q(x)) for x in coll))
+        except Exception as e:  # noqa: BLE001
+            return ("raised", type(e).__name__)
+
+    def _lib(p_, coll):
+        try:
+            return ("ok", p_(coll))
+        except Exception as e:  # noqa: BLE001
+            return ("raised", type(e).__name__)
+
+    real_n = 0
+    for (de, q), (dc, mk) in itertools.product(elem, colls):
+        for dq, quant, fn in (("all_p", _P7.all_p, all), ("any_p", _P7.any_p, any)):
+            real_n += 1
+            got, want = _lib(quant(q), mk()), _py(q, fn, mk())
+            if got != want and not (got[0] == "raised" and want[0] == "raised"):
+                chk.add_failure({"predicate": f"{dq}({de})", "input": dc}, {"what": f"{dq} differs from Python's {fn.__name__}() over the elements", "implementation": list(got), "plain_python": list(want)}, None)
+    chk.evaluations += real_n
+    chk.extra["real_atom_quantifier_cases"] = real_n
     chk.extra["probes"] = nprobes
     chk.extra["tables"] = len(tables)
     chk.extra["inputs"] = [repr(x) for x in INPUTS]
